@@ -108,10 +108,19 @@ def _bex_init(modname, tier, seed):
         _MOD.worker_init(tier, seed)
 
 
+_WORKER_HISTORY = {}
+
+
 def _bex_run(item):
     idx, sub, case = item
     try:
         r = _MOD.run_case(case)
+        # remember what this worker evaluated first and just before: a violation that depends on
+        # state carried between evaluations (caches) can only be replayed with its predecessors
+        if r.get('violations') and 'replay_case' not in r and _WORKER_HISTORY.get('prev') is not None:
+            r['context'] = {'first': _WORKER_HISTORY['first'], 'prev': _WORKER_HISTORY['prev']}
+        _WORKER_HISTORY.setdefault('first', case)
+        _WORKER_HISTORY['prev'] = case
     except HarnessError:
         raise
     except Exception:
@@ -189,7 +198,11 @@ def run_bex(mod, tier, seed):
             nontrivial.add(r.get('fp') or fingerprint(case))
         for v in r.get('violations', []):
             v = dict(v)
-            v['case'] = case
+            # a module may give a richer replay case (e.g. the case that ran before it in the
+            # same worker, for violations that depend on state carried between evaluations)
+            v['case'] = r.get('replay_case') or case
+            if r.get('context'):
+                v['context'] = r['context']
             v['order'] = idx
             violations.append(v)
     for i in info:
@@ -206,7 +219,8 @@ def run_bex(mod, tier, seed):
             rechecked += 1
             if a != b:
                 violations.append(
-                    V('order-dependence', f'first={a[:300]} second={b[:300]}', case=it[2], order=it[0])
+                    V('order-dependence', f'first={a[:300]} second={b[:300]}', case=it[2], order=it[0],
+                      context={'slice': [x[2] for x in sl]})
                 )
     samples = [items[i][2] for i in sorted(set([0, len(items) // 2, len(items) - 1])) if items]
     cov = {
@@ -238,6 +252,8 @@ def write_replay(pid, v, mod):
     d = REPLAY_DIR / pid
     d.mkdir(parents=True, exist_ok=True)
     body = {'property': pid, 'kind': v['kind'], 'detail': v['detail'], 'case': v['case']}
+    if v.get('context'):
+        body['context'] = v['context']
     h = fingerprint([v['kind'], v['case']])
     p = d / f'{h}.json'
     p.write_text(json.dumps(json.loads(jdump(body)), indent=1))
@@ -338,14 +354,50 @@ def finish(pid, mod, tier, seed, cov, violations, wall, confirm=True):
     return rc
 
 
+def _ctx_child(args):
+    modname, tier, seed, case, ctx = args
+    _bex_init(modname, tier, seed)
+    for k in ('first', 'prev'):
+        if ctx.get(k) is not None:
+            _MOD.run_case(ctx[k])
+    return _MOD.run_case(case).get('violations', [])
+
+
+def _replay_with_context(mod, case, ctx):
+    res = pool_map(_ctx_child, [(mod.__name__, os.environ.get('VERIF_TIER', 'quick'), 0, case, ctx)], 1, None, ())
+    vs = res[0]
+    for v in vs:
+        v['detail'] = '[replayed after the worker\'s first and previous case] ' + v['detail']
+    return vs
+
+
 def do_replay(pid, mod, path, tier, seed):
     body = json.loads(Path(path).read_text())
     if hasattr(mod, 'worker_init'):
         mod.worker_init(tier, seed)
-    if hasattr(mod, 'replay'):
+    ctx = body.get('context') or {}
+    if body.get('kind') == 'order-dependence' and 'slice' in ctx and hasattr(mod, 'observe'):
+        # same procedure as the order-independence pass: observe, sweep the slice in reversed
+        # order in the same process, observe again
+        a = jdump(mod.observe(body['case']))
+        for c in reversed(ctx['slice']):
+            mod.observe(c)
+        b = jdump(mod.observe(body['case']))
+        first_all = None
+        vs = [V('order-dependence', f'first={a[:300]} second={b[:300]}')] if a != b else []
+        if not vs:
+            # the dependence may need the forward sweep first (as in the original pass)
+            first_all = [jdump(mod.observe(c)) for c in ctx['slice']]
+            second_all = [jdump(mod.observe(c)) for c in reversed(ctx['slice'])][::-1]
+            vs = [V('order-dependence', f'first={x[:300]} second={y[:300]}') for x, y in zip(first_all, second_all) if x != y][:1]
+    elif hasattr(mod, 'replay'):
         vs = mod.replay(body['case'])
     else:
         vs = mod.run_case(body['case']).get('violations', [])
+        if not vs and ctx:
+            # not reproducible cold: re-create the worker's history (first case, previous case).
+            # This needs a process that has not evaluated the case yet, so it is done in a child.
+            vs = _replay_with_context(mod, body['case'], ctx)
     known = load_known()
     open_ids = {k for k, e in known.items() if e.get('status') == 'open' and e.get('property') == pid}
     rc = 0
